@@ -223,6 +223,89 @@ def gen_sweep(ctx, rng, kind):
             'conf': {'T': 2, 'locality': kind, 'mix': 'geo', 'temp': kind.split('-')[-1], 'counts': [1, 1]}}
 
 
+def matrix_pair(m, master):
+    """The m-th ordered pair of public functions of this run: every A once per 13 sweeps, B rotating with
+    VERIF_SEED and with the round, so that 13 seeds of the quick tier (or one thorough run) cover all 169."""
+    from .workload import PUBLIC
+    n = len(PUBLIC)
+    return PUBLIC[m % n], PUBLIC[(m + master + m // n) % n]
+
+
+def matrix_call(g, ctx, f, anc):
+    """Public function f applied to the anchor (point, resolution, the cell containing the point)."""
+    r = g.rng
+    cell, res = anc['cell'], anc['res']
+    if f == 'lonlat_to_cell':
+        return mk(f, anc['p'], res)
+    if f == 'cell_to_lonlat':
+        return mk(f, cell)
+    if f == 'cell_to_boundary':
+        return mk(f, cell, *r.choice([({'segments': 1},), (), ({'closed_ring': False},), ({'segments': 2},)]))
+    if f == 'cell_to_parent':
+        return mk(f, cell) if r.random() < 0.5 else mk(f, cell, max(0, res - r.randint(1, 2)))
+    if f == 'cell_to_children':
+        return mk(f, cell) if r.random() < 0.5 else mk(f, cell, min(29, res + 2))
+    if f in ('get_resolution', 'u64_to_hex'):
+        return mk(f, cell)
+    if f == 'hex_to_u64':
+        return mk(f, '%x' % cell)
+    if f == 'get_res0_cells':
+        return mk(f)
+    if f in ('get_num_cells', 'cell_area'):
+        return mk(f, res)
+    if f == 'compact':
+        ch = ctx.value(mk('cell_to_children', cell, min(29, res + r.choice([1, 1, 2])))) or [cell]
+        ch = list(ch)
+        if r.random() < 0.3 and len(ch) > 1:
+            del ch[r.randrange(len(ch))]
+        r.shuffle(ch)
+        return mk(f, ch)
+    if f == 'uncompact':
+        return mk(f, [cell], min(29, res + r.choice([1, 2])))
+    raise ValueError(f)
+
+
+def gen_matrix_sweep(ctx, rng, fa, fb, tier):
+    """Systematic half of C16's quantifier over *functions*: the ordered pair (fa, fb) of public functions, on
+    related arguments (the same cell, a sibling, or another cell), cold / on state left by other cells / hot;
+    every line boundary of A (every bytecode boundary when A is short) with B run to completion in the gap."""
+    g = Gen(rng, ctx)
+    anc = _same_cell_anchor(g)
+    rel = wchoice(rng, {'same': 35, 'sibling': 25, 'other': 40})
+    anc_b = anc
+    if rel == 'sibling':
+        par = ctx.value(mk('cell_to_parent', anc['cell']))
+        sibs = ctx.value(mk('cell_to_children', par)) if isinstance(par, int) and par else None
+        sibs = [c for c in (sibs or []) if c != anc['cell']]
+        if sibs:
+            c = rng.choice(sibs)
+            ctr = ctx.value(mk('cell_to_lonlat', c))
+            anc_b = {'p': ctr if isinstance(ctr, tuple) else anc['p'], 'res': anc['res'], 'cell': c}
+    elif rel == 'other':
+        anc_b = _same_cell_anchor(g)
+    A = matrix_call(g, ctx, fa, anc)
+    B = matrix_call(g, ctx, fb, anc_b)
+    if not (ctx.usable(A) and ctx.usable(B)):
+        return None
+    temp = wchoice(rng, {'cold': 60, 'other': 25, 'hot': 15})
+    warm = []
+    if temp == 'other':
+        o = _same_cell_anchor(g)
+        warm = [c for c in (matrix_call(g, ctx, fa, o), matrix_call(g, ctx, fb, o)) if ctx.usable(c)][:rng.randint(1, 2)]
+    elif temp == 'hot':
+        warm = [dict(A), dict(B)]
+    gran = 'instr' if ctx.oracle(A, gran='instr')['steps'] + 1 <= (1200 if tier == 'quick' else 6000) else 'line'
+    threads = [[A], [B]]
+    est = sum(ctx.oracle(c, gran=gran)['steps'] for tc in threads for c in tc)
+    extra = {}
+    pr = make_probes(g, ctx, threads, 2)
+    if pr:
+        extra['probes'] = pr
+    return {'threads': threads, 'warm': warm, 'plan': {'plan': 'one', 'a': 0, 'k': 0, 'order': [1]}, 'seed': 0, **extra,
+            'budget': 20 * est + 100_000 * (1 if gran == 'line' else 8), 'est_len': est, 'gran': gran, 'post': True,
+            'conf': {'T': 2, 'locality': 'matrix-' + rel, 'mix': 'all', 'temp': temp, 'counts': [1, 1]}}
+
+
 def gen_spec(ctx, rng, tier, force=None):
     """Draw one run: configuration (swarm), workload, plan."""
     force = force or {}
